@@ -279,7 +279,7 @@ func C05forms(p *load.Program, run *report.Run) {
 							case got.Canon() != want.Canon():
 								run.Violate("stream-eval-forms", key, p.Rel(evalFn.Pos()), "evaluated label differs from the label of f_op(va,vb)",
 									map[string]string{"got": got.Canon(), "want": want.Canon()})
-							case idNext != gf.IDAfter:
+							case region.idPhi != nil && idNext != gf.IDAfter:
 								run.Violate("stream-eval-forms", key, p.Rel(evalFn.Pos()), fmt.Sprintf("tweak counter %v vs garbler %v", idNext, gf.IDAfter), nil)
 							default:
 								run.OK("stream-eval-forms", key, p.Rel(evalFn.Pos()), "")
@@ -323,6 +323,8 @@ type evalRegionT struct {
 	loop  fpai.Loop
 	free  []ssa.Value
 	idPhi *ssa.Phi
+	// idBase: without a running counter, the value every tweak of the gate body is an offset of
+	idBase ssa.Value
 }
 
 func evalRegion(p *load.Program, fn *ssa.Function) (*evalRegionT, error) {
@@ -344,6 +346,50 @@ func evalRegion(p *load.Program, fn *ssa.Function) (*evalRegionT, error) {
 		}
 	}
 	if r.idPhi == nil {
+		// tweaks derived from the gate's position instead of a running counter: every tweak handed to the
+		// hash primitives in the gate body is one base value plus a constant; the base is kept symbolic
+		bases := map[ssa.Value]bool{}
+		for _, b := range fn.Blocks {
+			// the blocks of the gate loop: dominated by its body and able to come back to the header
+			if !(loop.Body.Dominates(b) && (b == loop.Header || blockReaches(b, loop.Header))) {
+				continue
+			}
+			for _, ins := range b.Instrs {
+				c, ok := ins.(*ssa.Call)
+				if !ok || c.Call.StaticCallee() == nil || c.Call.StaticCallee().Pkg == nil || c.Call.StaticCallee().Pkg.Pkg.Path() != load.Module+"/circuit" {
+					continue
+				}
+				switch c.Call.StaticCallee().Name() {
+				case "encrypt", "decrypt", "encryptHalf":
+				default:
+					continue
+				}
+				for i, prm := range c.Call.StaticCallee().Params {
+					if bt, ok := prm.Type().Underlying().(*types.Basic); ok && bt.Kind() == types.Uint32 && i < len(c.Call.Args) {
+						v := c.Call.Args[i]
+						for {
+							if bo, ok := v.(*ssa.BinOp); ok && (bo.Op == token.ADD || bo.Op == token.OR) {
+								if _, isK := bo.Y.(*ssa.Const); isK {
+									v = bo.X
+									continue
+								}
+							}
+							break
+						}
+						bases[v] = true
+					}
+				}
+			}
+		}
+		if len(bases) == 1 {
+			for v := range bases {
+				if _, isConst := v.(*ssa.Const); !isConst {
+					r.idBase = v
+				}
+			}
+		}
+	}
+	if r.idPhi == nil && r.idBase == nil {
 		return nil, fmt.Errorf("tweak counter of the gate loop not found")
 	}
 	return r, nil
@@ -461,6 +507,9 @@ func (r *evalRegionT) run(p *load.Program, rec *streamRecord, pa, pb, va, vb boo
 			}
 		}
 	}
+	if r.idBase != nil {
+		in.ValueOverride = map[ssa.Value]fpai.Val{r.idBase: fpai.IntV{Sym: "id0"}}
+	}
 	ret, outEnv, err := in.RunRegion(r.fn, r.loop.Body, r.loop.Header, env, func(from, to *ssa.BasicBlock) bool { return to == r.loop.Header })
 	if codecErr != nil {
 		return nil, fpai.IntV{}, 0, codecErr
@@ -473,6 +522,9 @@ func (r *evalRegionT) run(p *load.Program, rec *streamRecord, pa, pb, va, vb boo
 		return nil, fpai.IntV{}, 0, fmt.Errorf("the evaluator rejects the honest record")
 	}
 	for k, pred := range r.loop.Header.Preds {
+		if r.idPhi == nil {
+			break
+		}
 		if pred == exit.From {
 			if v, ok := outEnv[r.idPhi.Edges[k]].(fpai.IntV); ok {
 				idNext = v
